@@ -54,6 +54,7 @@ class SList:
         return SList(ln, lambda k, lo=lo: self.elem_fn(lo + k), name=(self.name or "") + "[:]")
 
     def append(self, v):
+        sym.note_mutation(self)
         n, old = self.length, self.elem_fn
         self.elem_fn = lambda k, n=n, old=old: _pick(k, n, v, old)
         self.length = n + 1
@@ -91,6 +92,7 @@ class SDict:
 
     def __setitem__(self, key, val):
         from .loops import scalar_eq
+        sym.note_mutation(self)
         run = engine()
         j = sym.fresh_int("dk")
         n = self.length
@@ -180,6 +182,7 @@ class BList:
 
     def append(self, v):
         from .opaque import Cond
+        sym.note_mutation(self)
         r, p, old = self.rows, self.partial, self.elem2
 
         def e2(t, i, r=r, p=p, old=old, v=v):
